@@ -144,7 +144,15 @@ func init() {
 		}
 		return sb.String()
 	}
-	register(&model{name: "loopsess", gen: func(r *rand.Rand) (string, string, string) {
+	// when a command of the default keymaps other than self-insert and accept-line has run (the model says so:
+	// "line~:"; type-ahead and fed keys can combine into C-x C-x, C-x Rubout, ...), the returned line is not
+	// compared: such a command may move the cursor or edit, which the model of the loop does not follow. The
+	// probe commands, their order and their keys still are.
+	sameChars := func(real, model string) bool {
+		i, j := strings.LastIndex(real, "line:"), strings.LastIndex(model, "line~:")
+		return i >= 0 && j >= 0 && real[:i] == model[:j]
+	}
+	register(&model{name: "loopsess", accept: sameChars, gen: func(r *rand.Rand) (string, string, string) {
 		loadDefaults()
 		mode, km := "emacs", "emacs"
 		if r.Intn(3) == 0 {
